@@ -116,6 +116,14 @@ fn draw_data<T: SNum>(c: &mut Case, model: Model) -> Option<Data> {
         (s, s, "common")
     };
     let mut x = design(&mut c.rng, n, p, maxcond, smin, smax, mean_mag);
+    // integer-valued designs (contrast codes, dummies, small counts): exact cancellations between entries, exactly
+    // orthogonal columns and exactly zero cross-products occur here and never in real-valued draws
+    let mut scale_mode = scale_mode;
+    if model != Model::RidgeOffset && c.rng.bool(0.15) {
+        let dummy = c.rng.bool(0.4);
+        x = Mat::from_fn(n, p, |_, _| if dummy { c.rng.below(2) as f64 } else { c.rng.int(-2, 2) as f64 });
+        scale_mode = if dummy { "integer:0/1-dummies" } else { "integer:-2..2" };
+    }
     if is32::<T>() {
         x = x.round_f32();
     }
@@ -135,8 +143,10 @@ fn draw_data<T: SNum>(c: &mut Case, model: Model) -> Option<Data> {
         "noise+offset"
     } else if yk < 0.92 {
         "exact-linear"
-    } else if yk < 0.97 {
+    } else if yk < 0.95 {
         "constant"
+    } else if yk < 0.98 {
+        "small-integers"
     } else {
         "zero"
     };
@@ -159,6 +169,7 @@ fn draw_data<T: SNum>(c: &mut Case, model: Model) -> Option<Data> {
             let v = c.rng.uni(-5.0, 5.0);
             vec![v; n]
         }
+        "small-integers" => (0..n).map(|_| if c.rng.bool(0.3) { 0.0 } else { c.rng.int(-3, 3) as f64 }).collect(),
         _ => vec![0.0; n],
     };
     if c.rng.bool(0.5) {
